@@ -20,6 +20,7 @@ type Scope struct {
 	DbExpose  []int
 	Render    []int // quantity renderings of the two compute profiles
 	PlaceVar  []int // placement variants
+	NameVar   []int // naming of placements and compute profiles, see nameVariants (nil: {0})
 	WebCount  []uint32
 	DbCount   []uint32
 }
@@ -68,8 +69,8 @@ func (s Scope) Describe() string {
 		t = append(t, topoNames[i])
 	}
 	return fmt.Sprintf("topologies {%s} x web(command/args/env variants %v x expose variants %v) x db(variants %v x expose variants %v) x "+
-		"compute assignment web,db in {small,large} x quantity renderings %v x placement variants %v x counts web %v db %v",
-		strings.Join(t, "; "), s.WebCAE, s.WebExpose, s.DbCAE, s.DbExpose, s.Render, s.PlaceVar, s.WebCount, s.DbCount)
+		"compute assignment web,db in {small,large} x quantity renderings %v x placement variants %v x counts web %v db %v x name variants %v (0: p1,p2/small,large; 1: westcoast,Westcoast/Standard,standard; 2: alpha,Zeta/beta,Gamma)",
+		strings.Join(t, "; "), s.WebCAE, s.WebExpose, s.DbCAE, s.DbExpose, s.Render, s.PlaceVar, s.WebCount, s.DbCount, nameVars(s))
 }
 
 func cae(s *Service, v int, tag string) {
@@ -191,12 +192,14 @@ func Enumerate(sc Scope) (docs []Doc, illformed []Doc) {
 									for _, pv := range sc.PlaceVar {
 										for _, wn := range sc.WebCount {
 											for _, dn := range dbCount {
-												d := build(topo, wc, we, dc, de, wp, dp, r, pv, wn, dn)
-												if !Valid(d) {
-													illformed = append(illformed, d)
-													continue
+												for _, nv := range nameVars(sc) {
+													d := rename(build(topo, wc, we, dc, de, wp, dp, r, pv, wn, dn), nv)
+													if !Valid(d) {
+														illformed = append(illformed, d)
+														continue
+													}
+													docs = append(docs, d)
 												}
-												docs = append(docs, d)
 											}
 										}
 									}
@@ -209,6 +212,81 @@ func Enumerate(sc Scope) (docs []Doc, illformed []Doc) {
 		}
 	}
 	return docs, illformed
+}
+
+// nameVariants: how the placements (p1, p2) and compute profiles (small, large) are called.
+//
+//	0: p1 p2 / small large
+//	1: names that differ only in letter case (a tie for any case-insensitive comparison)
+//	2: names whose byte-wise order is the opposite of their case-insensitive order ("Zeta" < "alpha")
+//
+// Service names stay lower-case: validation.ValidateManifest refuses anything else.
+var nameVariants = []map[string]string{
+	0: {},
+	1: {"p1": "westcoast", "p2": "Westcoast", "small": "Standard", "large": "standard"},
+	2: {"p1": "alpha", "p2": "Zeta", "small": "beta", "large": "Gamma"},
+}
+
+func nameVars(sc Scope) []int {
+	if len(sc.NameVar) == 0 {
+		return []int{0}
+	}
+	return sc.NameVar
+}
+
+func rename(d Doc, nv int) Doc {
+	m := nameVariants[nv]
+	if len(m) == 0 {
+		return d
+	}
+	n := func(s string) string {
+		if r, ok := m[s]; ok {
+			return r
+		}
+		return s
+	}
+	out := Doc{Services: d.Services}
+	for _, c := range d.Computes {
+		c.Name = n(c.Name)
+		out.Computes = append(out.Computes, c)
+	}
+	for _, p := range d.Placements {
+		p.Name = n(p.Name)
+		pr := make([]Pricing, len(p.Pricing))
+		for i, x := range p.Pricing {
+			x.Profile = n(x.Profile)
+			pr[i] = x
+		}
+		p.Pricing = pr
+		out.Placements = append(out.Placements, p)
+	}
+	for _, e := range d.Deployment {
+		ne := DeployEntry{Service: e.Service}
+		for _, a := range e.At {
+			a.Placement, a.Profile = n(a.Placement), n(a.Profile)
+			ne.At = append(ne.At, a)
+		}
+		out.Deployment = append(out.Deployment, ne)
+	}
+	return out
+}
+
+// namesScope: the name grammar. Small alphabets for everything else, every topology with two
+// placements or two services, name variants 1 and 2.
+func namesScope() Scope {
+	return Scope{
+		Name:      "names",
+		Topo:      []int{1, 2, 3, 4},
+		WebCAE:    []int{0},
+		WebExpose: []int{0, 3},
+		DbCAE:     []int{0},
+		DbExpose:  []int{0, 2},
+		Render:    []int{0},
+		PlaceVar:  []int{0, 1},
+		NameVar:   []int{1, 2},
+		WebCount:  []uint32{2},
+		DbCount:   []uint32{3},
+	}
 }
 
 func build(topo, wc, we, dc, de int, wp, dp string, r, pv int, wn, dn uint32) Doc {
